@@ -1,13 +1,20 @@
 /-
   Tie A for the normalizer formulas (C18): the hand-written model `GSV.Model.Norm` that every C18 theorem
-  talks about is EQUAL, for all parameters and all data, to the definitions that `vlib/pyexpr2lean.py`
-  regenerates from the current text of `src/gstools/normalizer/methods.py` (and, for the inherited ranges and
-  the identity base class, `normalizer/base.py`) on every run of `./check` (`GSV/Gen/NormFormulas.lean`).
+  talks about is EQUAL over `ℝ` (the carrier of the C18 theorems), for all parameters and all data, to the definitions
+  that `vlib/pyexpr2lean.py` regenerates from the current text of `src/gstools/normalizer/methods.py` (and, for the
+  inherited ranges and the identity base class, `normalizer/base.py`) on every run of `./check`
+  (`GSV/Gen/NormFormulas.lean`).
 
-  All equalities hold on EVERY carrier `α` of the scalar interface (no algebraic law is used — the two texts
-  have the same operator tree up to the order of the `if`s), hence in particular on `ℝ` (where the C18
-  theorems live) and on `Float` (which the driver runs); the `ℝ` instances are spelled out at the end.
-  A semantic edit of a formula changes the generated definition and the corresponding theorem stops checking.
+  The theorems `*_eq_model_real` of this file are the registered obligations.  Each is proved by `tie_real`
+  (`GSV/Props/GenTieReal.lean`): unfold both sides, rewrite the numpy vocabulary into Mathlib's, normalise roots / powers
+  and every commutative-ring subterm, split the branch conditions, close by `ring1 | ring_nf | field_simp; ring1`.
+  The script uses nothing about the particular formula, so it keeps checking when a maintainer rewrites a formula into
+  a real-equal one (`log1p(x * l) / l` -> `log1p(x * l) * (1 / l)`), and stops checking on a semantic edit (a sign, a
+  swapped range end, `>=` -> `>` in a mask, `log1p` -> `log`): the mutation self-test `vlib/selftest_pyexpr2lean.py` runs both.
+  No side condition is needed: all 34 equalities hold for all real parameters and data.
+
+  The carrier-polymorphic `rfl` form of the same equalities (the model text IS the source text, also on `Float`) lives in
+  `GenTieNormExact.lean` and is reported as informative.
 
   Correspondence of the vocabulary: `np.isclose`, `np.sign` of `GSV/PyExpr.lean` are the model's `isclose`,
   `sgn` (`isclose_eq`, `sign_eq`); `np.log1p x` / `np.expm1 x` are `log (1 + x)` / `exp x - 1`
@@ -15,13 +22,14 @@
   correspond to the model's `Rng` (`none` = infinite end) through `extRng`.
 -/
 import GSV.RealInst
+import GSV.Props.GenTieReal
 import GSV.Model.Norm
 import GSV.Gen.NormFormulas
 
 set_option linter.unusedSectionVars false
 
 namespace GSV.Props.GenTieNorm
-open GSV GSV.Transc GSV.PyExpr GSV.Model.Norm GSV.Gen.NormFormulas
+open GSV GSV.Transc GSV.PyExpr GSV.Model.Norm GSV.Gen.NormFormulas GSV.Props.GenTieReal
 
 variable {α : Type} [Arith α] [Transc α] [DecidableLT α] [DecidableLE α]
 
@@ -31,8 +39,8 @@ theorem isclose_eq (a b : α) : PyExpr.isclose a b = Model.Norm.isclose a b := r
 theorem sign_eq (x : α) : PyExpr.sign x = sgn x := rfl
 theorem log1p_eq (x : α) : log1p x = log (((1:Nat):α) + x) := rfl
 theorem expm1_eq (x : α) : expm1 x = exp x - ((1:Nat):α) := rfl
-theorem log1p_real (x : ℝ) : log1p x = Real.log (1 + x) := by simp [log1p]
-theorem expm1_real (x : ℝ) : expm1 x = Real.exp x - 1 := by simp [expm1]
+theorem log1p_real (x : ℝ) : log1p x = Real.log (1 + x) := GenTieReal.log1p_real x
+theorem expm1_real (x : ℝ) : expm1 x = Real.exp x - 1 := GenTieReal.expm1_real x
 
 /-- lower end of a model range as a tuple entry: `none` is `-np.inf` -/
 def extLo : Option α → Ext α
@@ -52,138 +60,139 @@ theorem extRng_injective (r s : Rng α) (h : extRng r = extRng s) : r = s := by
   obtain ⟨h1, h2⟩ := h
   cases rl <;> cases sl <;> cases rh <;> cases sh <;> simp_all [extLo, extHi]
 
-/-! ### LogNormal -/
+/-! ### the obligations: equality over `ℝ`, robust against real-equal rewrites of the source
 
-theorem LogNormal_normalize_range_eq_model (p : Par α) :
-    (LogNormal.normalize_range : Ext α × Ext α) = extRng (normRange .logNormal p) := rfl
-theorem LogNormal_denormalize_range_eq_model (p : Par α) :
-    (LogNormal.denormalize_range : Ext α × Ext α) = extRng (denormRange .logNormal p) := rfl
-theorem LogNormal_denormalize_eq_model (p : Par α) (y : α) :
-    LogNormal._denormalize y = denormRaw .logNormal p y := rfl
-theorem LogNormal_normalize_eq_model (p : Par α) (x : α) :
-    LogNormal._normalize x = normRaw .logNormal p x := rfl
-theorem LogNormal_derivative_eq_model (p : Par α) (x : α) :
-    LogNormal._derivative x = derivRaw .logNormal p x := rfl
+`tie_norm G, M` unfolds the generated definition `G`, the model function `M`, the `isclose` flags and the range
+encoding, reads the model's `isclose` / `sgn` as numpy's, and runs `tie_real`. -/
+
+local macro "tie_norm " g:ident ", " m:ident : tactic =>
+  `(tactic| tie_real [$g:ident, $m:ident, c0, c2, ← isclose_eq, ← sign_eq, extRng, extLo, extHi])
+
+/-! ### LogNormal -/
+theorem LogNormal_normalize_range_eq_model_real (p : Par ℝ) :
+    (LogNormal.normalize_range : Ext ℝ × Ext ℝ) = extRng (normRange .logNormal p) := by
+  tie_norm LogNormal.normalize_range, normRange
+theorem LogNormal_denormalize_range_eq_model_real (p : Par ℝ) :
+    (LogNormal.denormalize_range : Ext ℝ × Ext ℝ) = extRng (denormRange .logNormal p) := by
+  tie_norm LogNormal.denormalize_range, denormRange
+theorem LogNormal_denormalize_eq_model_real (p : Par ℝ) (y : ℝ) :
+    LogNormal._denormalize y = denormRaw .logNormal p y := by
+  tie_norm LogNormal._denormalize, denormRaw
+theorem LogNormal_normalize_eq_model_real (p : Par ℝ) (x : ℝ) :
+    LogNormal._normalize x = normRaw .logNormal p x := by
+  tie_norm LogNormal._normalize, normRaw
+theorem LogNormal_derivative_eq_model_real (p : Par ℝ) (x : ℝ) :
+    LogNormal._derivative x = derivRaw .logNormal p x := by
+  tie_norm LogNormal._derivative, derivRaw
 
 /-! ### BoxCox -/
-
-theorem BoxCox_normalize_range_eq_model (p : Par α) :
-    (BoxCox.normalize_range : Ext α × Ext α) = extRng (normRange .boxCox p) := rfl
-theorem BoxCox_denormalize_range_eq_model (p : Par α) :
+theorem BoxCox_normalize_range_eq_model_real (p : Par ℝ) :
+    (BoxCox.normalize_range : Ext ℝ × Ext ℝ) = extRng (normRange .boxCox p) := by
+  tie_norm BoxCox.normalize_range, normRange
+theorem BoxCox_denormalize_range_eq_model_real (p : Par ℝ) :
     BoxCox.denormalize_range p.lmbda = extRng (denormRange .boxCox p) := by
-  rw [BoxCox.denormalize_range, denormRange, show c0 p = PyExpr.isclose p.lmbda ((0:Nat):α) from rfl]
-  cases PyExpr.isclose p.lmbda ((0:Nat):α)
-  · by_cases h1 : p.lmbda < ((0:Nat):α) <;> simp only [h1, Bool.false_eq_true, if_true, if_false] <;> rfl
-  · rfl
-theorem BoxCox_denormalize_eq_model (p : Par α) (y : α) :
-    BoxCox._denormalize p.lmbda y = denormRaw .boxCox p y := rfl
-theorem BoxCox_normalize_eq_model (p : Par α) (x : α) :
-    BoxCox._normalize p.lmbda x = normRaw .boxCox p x := rfl
-theorem BoxCox_derivative_eq_model (p : Par α) (x : α) :
-    BoxCox._derivative p.lmbda x = derivRaw .boxCox p x := rfl
+  tie_norm BoxCox.denormalize_range, denormRange
+theorem BoxCox_denormalize_eq_model_real (p : Par ℝ) (y : ℝ) :
+    BoxCox._denormalize p.lmbda y = denormRaw .boxCox p y := by
+  tie_norm BoxCox._denormalize, denormRaw
+theorem BoxCox_normalize_eq_model_real (p : Par ℝ) (x : ℝ) :
+    BoxCox._normalize p.lmbda x = normRaw .boxCox p x := by
+  tie_norm BoxCox._normalize, normRaw
+theorem BoxCox_derivative_eq_model_real (p : Par ℝ) (x : ℝ) :
+    BoxCox._derivative p.lmbda x = derivRaw .boxCox p x := by
+  tie_norm BoxCox._derivative, derivRaw
 
 /-! ### BoxCoxShift -/
-
-theorem BoxCoxShift_normalize_range_eq_model (p : Par α) :
-    BoxCoxShift.normalize_range p.shift = extRng (normRange .boxCoxShift p) := rfl
-theorem BoxCoxShift_denormalize_range_eq_model (p : Par α) :
+theorem BoxCoxShift_normalize_range_eq_model_real (p : Par ℝ) :
+    BoxCoxShift.normalize_range p.shift = extRng (normRange .boxCoxShift p) := by
+  tie_norm BoxCoxShift.normalize_range, normRange
+theorem BoxCoxShift_denormalize_range_eq_model_real (p : Par ℝ) :
     BoxCoxShift.denormalize_range p.lmbda = extRng (denormRange .boxCoxShift p) := by
-  rw [BoxCoxShift.denormalize_range, denormRange, show c0 p = PyExpr.isclose p.lmbda ((0:Nat):α) from rfl]
-  cases PyExpr.isclose p.lmbda ((0:Nat):α)
-  · by_cases h1 : p.lmbda < ((0:Nat):α) <;> simp only [h1, Bool.false_eq_true, if_true, if_false] <;> rfl
-  · rfl
-theorem BoxCoxShift_denormalize_eq_model (p : Par α) (y : α) :
-    BoxCoxShift._denormalize p.lmbda p.shift y = denormRaw .boxCoxShift p y := rfl
-theorem BoxCoxShift_normalize_eq_model (p : Par α) (x : α) :
-    BoxCoxShift._normalize p.lmbda p.shift x = normRaw .boxCoxShift p x := rfl
-theorem BoxCoxShift_derivative_eq_model (p : Par α) (x : α) :
-    BoxCoxShift._derivative p.lmbda p.shift x = derivRaw .boxCoxShift p x := rfl
+  tie_norm BoxCoxShift.denormalize_range, denormRange
+theorem BoxCoxShift_denormalize_eq_model_real (p : Par ℝ) (y : ℝ) :
+    BoxCoxShift._denormalize p.lmbda p.shift y = denormRaw .boxCoxShift p y := by
+  tie_norm BoxCoxShift._denormalize, denormRaw
+theorem BoxCoxShift_normalize_eq_model_real (p : Par ℝ) (x : ℝ) :
+    BoxCoxShift._normalize p.lmbda p.shift x = normRaw .boxCoxShift p x := by
+  tie_norm BoxCoxShift._normalize, normRaw
+theorem BoxCoxShift_derivative_eq_model_real (p : Par ℝ) (x : ℝ) :
+    BoxCoxShift._derivative p.lmbda p.shift x = derivRaw .boxCoxShift p x := by
+  tie_norm BoxCoxShift._derivative, derivRaw
 
-/-! ### YeoJohnson
-
-The source fills `res[pos]` and `res[~pos]` (with `pos = data >= 0`) under two independent `if`s on `lmbda`;
-the model branches on `x ≥ 0` first.  Same four formulas, different nesting: proved by case distinction on the
-three conditions (no law of arithmetic is used). -/
-
-theorem YeoJohnson_normalize_range_eq_model (p : Par α) :
-    (YeoJohnson.normalize_range : Ext α × Ext α) = extRng (normRange .yeoJohnson p) := rfl
-theorem YeoJohnson_denormalize_range_eq_model (p : Par α) :
-    (YeoJohnson.denormalize_range : Ext α × Ext α) = extRng (denormRange .yeoJohnson p) := rfl
-theorem YeoJohnson_denormalize_eq_model (p : Par α) (y : α) :
+/-! ### YeoJohnson -/
+theorem YeoJohnson_normalize_range_eq_model_real (p : Par ℝ) :
+    (YeoJohnson.normalize_range : Ext ℝ × Ext ℝ) = extRng (normRange .yeoJohnson p) := by
+  tie_norm YeoJohnson.normalize_range, normRange
+theorem YeoJohnson_denormalize_range_eq_model_real (p : Par ℝ) :
+    (YeoJohnson.denormalize_range : Ext ℝ × Ext ℝ) = extRng (denormRange .yeoJohnson p) := by
+  tie_norm YeoJohnson.denormalize_range, denormRange
+theorem YeoJohnson_denormalize_eq_model_real (p : Par ℝ) (y : ℝ) :
     YeoJohnson._denormalize p.lmbda y = denormRaw .yeoJohnson p y := by
-  rw [YeoJohnson._denormalize, denormRaw, show c0 p = PyExpr.isclose p.lmbda ((0:Nat):α) from rfl,
-    show c2 p = PyExpr.isclose p.lmbda ((2:Nat):α) from rfl]
-  by_cases h : y ≥ ((0:Nat):α) <;> cases PyExpr.isclose p.lmbda ((0:Nat):α)
-    <;> cases PyExpr.isclose p.lmbda ((2:Nat):α)
-    <;> simp only [h, Bool.false_eq_true, if_true, if_false, not_true_eq_false, not_false_eq_true] <;> rfl
-theorem YeoJohnson_normalize_eq_model (p : Par α) (x : α) :
+  tie_norm YeoJohnson._denormalize, denormRaw
+theorem YeoJohnson_normalize_eq_model_real (p : Par ℝ) (x : ℝ) :
     YeoJohnson._normalize p.lmbda x = normRaw .yeoJohnson p x := by
-  rw [YeoJohnson._normalize, normRaw, show c0 p = PyExpr.isclose p.lmbda ((0:Nat):α) from rfl,
-    show c2 p = PyExpr.isclose p.lmbda ((2:Nat):α) from rfl]
-  by_cases h : x ≥ ((0:Nat):α) <;> cases PyExpr.isclose p.lmbda ((0:Nat):α)
-    <;> cases PyExpr.isclose p.lmbda ((2:Nat):α)
-    <;> simp only [h, Bool.false_eq_true, if_true, if_false, not_true_eq_false, not_false_eq_true] <;> rfl
-theorem YeoJohnson_derivative_eq_model (p : Par α) (x : α) :
-    YeoJohnson._derivative p.lmbda x = derivRaw .yeoJohnson p x := rfl
+  tie_norm YeoJohnson._normalize, normRaw
+theorem YeoJohnson_derivative_eq_model_real (p : Par ℝ) (x : ℝ) :
+    YeoJohnson._derivative p.lmbda x = derivRaw .yeoJohnson p x := by
+  tie_norm YeoJohnson._derivative, derivRaw
 
 /-! ### Modulus -/
-
-theorem Modulus_normalize_range_eq_model (p : Par α) :
-    (Modulus.normalize_range : Ext α × Ext α) = extRng (normRange .modulus p) := rfl
-theorem Modulus_denormalize_range_eq_model (p : Par α) :
-    (Modulus.denormalize_range : Ext α × Ext α) = extRng (denormRange .modulus p) := rfl
-theorem Modulus_denormalize_eq_model (p : Par α) (y : α) :
-    Modulus._denormalize p.lmbda y = denormRaw .modulus p y := rfl
-theorem Modulus_normalize_eq_model (p : Par α) (x : α) :
-    Modulus._normalize p.lmbda x = normRaw .modulus p x := rfl
-theorem Modulus_derivative_eq_model (p : Par α) (x : α) :
-    Modulus._derivative p.lmbda x = derivRaw .modulus p x := rfl
+theorem Modulus_normalize_range_eq_model_real (p : Par ℝ) :
+    (Modulus.normalize_range : Ext ℝ × Ext ℝ) = extRng (normRange .modulus p) := by
+  tie_norm Modulus.normalize_range, normRange
+theorem Modulus_denormalize_range_eq_model_real (p : Par ℝ) :
+    (Modulus.denormalize_range : Ext ℝ × Ext ℝ) = extRng (denormRange .modulus p) := by
+  tie_norm Modulus.denormalize_range, denormRange
+theorem Modulus_denormalize_eq_model_real (p : Par ℝ) (y : ℝ) :
+    Modulus._denormalize p.lmbda y = denormRaw .modulus p y := by
+  tie_norm Modulus._denormalize, denormRaw
+theorem Modulus_normalize_eq_model_real (p : Par ℝ) (x : ℝ) :
+    Modulus._normalize p.lmbda x = normRaw .modulus p x := by
+  tie_norm Modulus._normalize, normRaw
+theorem Modulus_derivative_eq_model_real (p : Par ℝ) (x : ℝ) :
+    Modulus._derivative p.lmbda x = derivRaw .modulus p x := by
+  tie_norm Modulus._derivative, derivRaw
 
 /-! ### Manly -/
-
-theorem Manly_normalize_range_eq_model (p : Par α) :
-    (Manly.normalize_range : Ext α × Ext α) = extRng (normRange .manly p) := rfl
-theorem Manly_denormalize_range_eq_model (p : Par α) :
+theorem Manly_normalize_range_eq_model_real (p : Par ℝ) :
+    (Manly.normalize_range : Ext ℝ × Ext ℝ) = extRng (normRange .manly p) := by
+  tie_norm Manly.normalize_range, normRange
+theorem Manly_denormalize_range_eq_model_real (p : Par ℝ) :
     Manly.denormalize_range p.lmbda = extRng (denormRange .manly p) := by
-  rw [Manly.denormalize_range, denormRange, show c0 p = PyExpr.isclose p.lmbda ((0:Nat):α) from rfl]
-  cases PyExpr.isclose p.lmbda ((0:Nat):α)
-  · by_cases h1 : p.lmbda < ((0:Nat):α) <;> simp only [h1, Bool.false_eq_true, if_true, if_false] <;> rfl
-  · rfl
-theorem Manly_denormalize_eq_model (p : Par α) (y : α) :
-    Manly._denormalize p.lmbda y = denormRaw .manly p y := rfl
-theorem Manly_normalize_eq_model (p : Par α) (x : α) :
-    Manly._normalize p.lmbda x = normRaw .manly p x := rfl
-theorem Manly_derivative_eq_model (p : Par α) (x : α) :
-    Manly._derivative p.lmbda x = derivRaw .manly p x := rfl
+  tie_norm Manly.denormalize_range, denormRange
+theorem Manly_denormalize_eq_model_real (p : Par ℝ) (y : ℝ) :
+    Manly._denormalize p.lmbda y = denormRaw .manly p y := by
+  tie_norm Manly._denormalize, denormRaw
+theorem Manly_normalize_eq_model_real (p : Par ℝ) (x : ℝ) :
+    Manly._normalize p.lmbda x = normRaw .manly p x := by
+  tie_norm Manly._normalize, normRaw
+theorem Manly_derivative_eq_model_real (p : Par ℝ) (x : ℝ) :
+    Manly._derivative p.lmbda x = derivRaw .manly p x := by
+  tie_norm Manly._derivative, derivRaw
 
-/-! ### the base class `Normalizer` (`normalizer/base.py`; what `normalizer=None` means): identity -/
+/-! ### Normalizer -/
+theorem Normalizer_normalize_range_eq_model_real (p : Par ℝ) :
+    (Normalizer.normalize_range : Ext ℝ × Ext ℝ) = extRng (normRange .identity p) := by
+  tie_norm Normalizer.normalize_range, normRange
+theorem Normalizer_denormalize_range_eq_model_real (p : Par ℝ) :
+    (Normalizer.denormalize_range : Ext ℝ × Ext ℝ) = extRng (denormRange .identity p) := by
+  tie_norm Normalizer.denormalize_range, denormRange
+theorem Normalizer_denormalize_eq_model_real (p : Par ℝ) (y : ℝ) :
+    Normalizer._denormalize y = denormRaw .identity p y := by
+  tie_norm Normalizer._denormalize, denormRaw
+theorem Normalizer_normalize_eq_model_real (p : Par ℝ) (x : ℝ) :
+    Normalizer._normalize x = normRaw .identity p x := by
+  tie_norm Normalizer._normalize, normRaw
 
-theorem Normalizer_normalize_range_eq_model (p : Par α) :
-    (Normalizer.normalize_range : Ext α × Ext α) = extRng (normRange .identity p) := rfl
-theorem Normalizer_denormalize_range_eq_model (p : Par α) :
-    (Normalizer.denormalize_range : Ext α × Ext α) = extRng (denormRange .identity p) := rfl
-theorem Normalizer_denormalize_eq_model (p : Par α) (y : α) :
-    Normalizer._denormalize y = denormRaw .identity p y := rfl
-theorem Normalizer_normalize_eq_model (p : Par α) (x : α) :
-    Normalizer._normalize x = normRaw .identity p x := rfl
-
-/-! ### the statements at `ℝ` (the carrier of the C18 theorems), in Mathlib's vocabulary -/
-
-/-- e.g. the regenerated Box-Cox transform at `ℝ`, outside the `isclose` band, is `(x ^ λ - 1) / λ` and is what
-    `GSV.Props.C18` reasons about -/
-example (p : Par ℝ) (x : ℝ) (h : c0 p = false) :
-    BoxCox._normalize p.lmbda x = (x ^ p.lmbda - 1) / p.lmbda
-      ∧ normRaw .boxCox p x = BoxCox._normalize p.lmbda x := by
-  refine ⟨?_, (BoxCox_normalize_eq_model p x).symm⟩
-  have h' : ¬ (PyExpr.isclose p.lmbda ((0:Nat):ℝ) = true) := by
-    rw [show PyExpr.isclose p.lmbda ((0:Nat):ℝ) = c0 p from rfl, h]; exact Bool.false_ne_true
-  rw [BoxCox._normalize, if_neg h']
-  simp
-
-example (p : Par ℝ) (x : ℝ) (hx : x < 0) (h : c2 p = true) :
-    YeoJohnson._normalize p.lmbda x = -Real.log (1 + -x) := by
-  rw [YeoJohnson_normalize_eq_model]
-  have : ¬ (x ≥ 0) := not_le.mpr hx
-  simp [normRaw, h, this]
+/-- the hypotheses-free statements are about non-trivial objects: e.g. Box-Cox with `λ = 1/2` at `x = 4` is `2` on both sides -/
+example : BoxCox._normalize (Par.mk (0.5:ℝ) 0).lmbda 4 = 2 ∧ normRaw .boxCox (Par.mk (0.5:ℝ) 0) 4 = 2 := by
+  have h : BoxCox._normalize (0.5:ℝ) 4 = 2 := by
+    have hc : ¬ (PyExpr.isclose (0.5:ℝ) ((0:Nat):ℝ) = true) := by
+      simp only [PyExpr.isclose, decide_eq_true_eq, fabs_real]; norm_num [abs_of_pos]
+    rw [BoxCox._normalize, if_neg hc]
+    have : ((4:ℝ)) ^ (0.5:ℝ) = 2 := by
+      rw [show (4:ℝ) = 2 ^ (2:ℝ) by norm_num, ← Real.rpow_mul (by norm_num)]; norm_num
+    simp only [rpow_real, this]; norm_num
+  exact ⟨h, (BoxCox_normalize_eq_model_real _ 4) ▸ h⟩
 
 end GSV.Props.GenTieNorm
